@@ -147,7 +147,8 @@ class Listings(Stage):
 
     def gen(self, d, tier):
         nil_rich = d.chance(0.35)
-        prof = dict(PROFILE, weights=dict(PROFILE.get('weights') or {}, nulls=40, bind=20, message=30, delete=8)) if nil_rich else PROFILE
+        prof = dict(PROFILE, weights=dict(PROFILE.get('weights') or {}, nulls=40, bind=20, message=30, delete=8)) if nil_rich else (
+            dict(PROFILE, weights=dict(PROFILE.get('weights') or {}, enum=40)) if d.chance(0.3) else PROFILE)
         specs = histgen.history(d, nconn=d.int(1, 3), nmsg=d.int(4, 36), profile=prof, tagged=True)
         initial = None
         if d.chance(0.3):
@@ -163,6 +164,16 @@ class Listings(Stage):
             pos = d.int(0, len(items))
             items[pos:pos] = [['cmd', 'filter !'], ['cmd', 'filter ' + x, None, dict(alts=[x], excl=[])],
                               ['cmd', 'filter ' + t, None, dict(alts=[a.strip() for a in t.split(',')], excl=[])], ['cmd', 'list ' + t], ['cmd', 'list']]
+        V0 = rm.vocab(specs)
+        labs = [str(x) for x in (V0.get('label') or [])]
+        if labs and d.chance(0.5):
+            # enum labels asked of messages that may never have been displayed (hidden by the start-up filter): the first such
+            # query and a repeated one must agree with each other and with the record
+            if d.chance(0.5):
+                initial = d.choice(['wl_display', '.get_registry', '!', 'wl_registry'])
+            lab = d.choice(labs)
+            q = d.choice(['list (%s)', 'list .(%s)', 'list * ! (%s)']) % lab
+            items += [['cmd', q], ['cmd', 'list'], ['cmd', q]]
         niltypes = sorted({a[1] for m in specs for a in m['args'] if a[0] == 'obj' and a[2] is None and a[1]})
         if niltypes and d.chance(0.95 if nil_rich else 0.25):
             # nil arguments carry their declared interface: listings by interface over nil arguments of several interfaces
